@@ -196,7 +196,7 @@ class ParticleBWRLS(ParticleLS):
         ls = self.decay[0].get_ls_list()
         q2 = get_relative_p2(m, m1, m2)
         q02 = get_relative_p2(m0, m1, m2)
-        return self.get_ls_amp(m, ls, q2, q02)
+        return self.get_ls_amp(m, ls, q2, q02, d=self.decay[0].d)
 
     def get_ls_amp(self, m, ls, q2, q02, d=3.0):
         dom, total_gamma = self.get_ls_amp_frac(m, ls, q2, q02, d)
